@@ -1,1 +1,2 @@
+import Driver.DdsText
 import Driver.Slice
